@@ -80,7 +80,7 @@ def base(rng, nd, nr):
 
 
 NAMES = (["set"] * 4 + ["to"] * 2 + ["add"] * 4 + ["addnew"] * 3 + ["bind"] * 3 + ["rmidx"] * 2 + ["rmkey"] * 2 +
-         ["copy"] * 3 + ["docset", "docsetv", "docto", "docclear", "shrink", "assign", "move", "swap"] + ["deser"] * 2)
+         ["copy"] * 3 + ["setprefix"] * 2 + ["docset", "docsetv", "docto", "docclear", "shrink", "assign", "move", "swap"] + ["deser"] * 2)
 
 
 def rand_op(rng, nd, nr):
@@ -100,9 +100,11 @@ def rand_op(rng, nd, nr):
         o["i"] = rng.randrange(4)
     elif op == "rmkey":
         o["k"] = rng.choice(KEYS)
-    elif op in ("copy", "docset"):
+    elif op in ("copy", "docset", "setprefix"):
         o["sb"], o["si"] = base(rng, nd, nr)
         o["sp"] = path(rng)
+        if op == "setprefix":
+            o["i"] = rng.randrange(4)
     elif op == "docsetv":
         o["v"] = scalar(rng)
     elif op == "deser":
